@@ -12,12 +12,16 @@ def scenarios(tier, rng):
         {"ops": [("w", "hex", rnd(10)), ("rot",), ("rot",), ("w", "hex", rnd(70000))], "destroy": True},
         {"ops": [("rot",), ("w", "hex", rnd(2048)), ("w", "hex", rnd(2048))], "destroy": False},
         {"ops": [("w", "hex", rnd(40000))], "destroy": True},
+        # rotation onto the very name that is being produced (the old output must be complete under the name before the new '.part' is opened)
+        {"ops": [("w", "hex", rnd(6000)), ("rots",), ("w", "hex", rnd(100)), ("rots",), ("w", "hex", rnd(9000))], "destroy": True},
+        {"ops": [("w", "hex", rnd(3000)), ("rots",), ("w", "hex", rnd(3000)), ("rot",), ("w", "hex", rnd(10)), ("rots",)], "destroy": False},
     ]
     if tier != "quick":
         for _ in range(12):
             ops = []
             for _ in range(rng.choice([2, 4, 7])):
-                ops.append(("rot",) if rng.random() < 0.3 else ("w", "hex", rnd(rng.choice([0, 1, 100, 3000, 50000]))))
+                r = rng.random()
+                ops.append(("rot",) if r < 0.25 else ("rots",) if r < 0.33 else ("w", "hex", rnd(rng.choice([0, 1, 100, 3000, 50000]))))
             base.append({"ops": ops, "destroy": rng.random() < 0.7})
     return base
 
@@ -48,9 +52,7 @@ def run(ctx):
         il, files, rc = common.run_w(drvw, ls)
         ml = common.run_model_lines(mdl, ls)
         nops = sum(1 for l in il if l.startswith("ev "))
-        exp = p_C14.expected_outputs(sc)
-        exp_by_name = {}
-        for k, d in enumerate(exp): exp_by_name.setdefault("out%d%s" % (k + 1, ext), []).append(d)
+        exp_by_name = p_C14.expected_by_name(sc, ext)
         why = []
         # the finished run
         for fn, data in files.items():
